@@ -86,6 +86,7 @@ def c01(ctx):
         F.r_init_order(ctx, prog, MAIN3)
         IT.r_symtab_writers(ctx, prog)
         IT.r_it_register(ctx, prog)
+        IT.r_it_degree_only(ctx, prog)
         IT.r_copy_scale(ctx, prog, 'api')     # what the decoders can reach (the unused dense-matrix helpers are C18's)
         KN.r_kernel_shape(ctx, prog)
         KN.r_kea(ctx, prog, list(range(0, 2 * KN.P + 9)), [0, 1, 2, 3, 4, 5, 7, 8, 9, 12, 13, 16, 20])
@@ -142,6 +143,7 @@ def c04(ctx):
         K.r_globals(ctx, prog)        # the decoder is re-entered recursively: no state in function statics
         IT.r_symtab_writers(ctx, prog)
         IT.r_it_register(ctx, prog)
+        IT.r_it_degree_only(ctx, prog)
         IT.r_copy_scale(ctx, prog, ['of_it_decoding.c', 'of_ldpc_staircase_api.c', 'of_matrix_sparse.c'])
         F.r_init_order(ctx, prog, [3])
         I.r_layout(ctx, prog, [3])
